@@ -26,8 +26,8 @@ EXTENDS HGProps, Json, IOUtils, TLCExt
 
 Jobs == JsonDeserialize(IOEnv.HG_STEPJOBS)
 
-VARIABLES pid, st, phase, rs, k, snap, acc, outcome, nfail
-vars == <<pid, st, phase, rs, k, snap, acc, outcome, nfail>>
+VARIABLES pid, st, phase, rs, k, snap, acc, outcome, nfail, inj
+vars == <<pid, st, phase, rs, k, snap, acc, outcome, nfail, inj>>
 
 Job == Jobs[pid]
 Pr  == Job.prog
@@ -42,6 +42,7 @@ Init == /\ pid \in 1..Len(Jobs)
         /\ phase = "plan" /\ rs = <<>> /\ k = 0 /\ snap = State0(Jobs[pid]) /\ acc = NoAcc
         /\ outcome = [status |-> "running", err |-> NoErr, pause |-> NoPause]
         /\ nfail = 0
+        /\ inj = <<>>          \* the injected failures <<node, invocation index>> (for the replay)
 
 GateCalls == Cardinality({i \in 1..Len(st.w.calls) : st.w.calls[i].dec # NoDec})
 
@@ -58,7 +59,7 @@ Plan ==
         /\ phase' = "exec" /\ rs' = r /\ k' = 1 /\ snap' = s0
         /\ acc' = [st |-> s0, first |-> "none", err |-> NoErr, pause |-> NoPause]
         /\ UNCHANGED <<st, outcome>>
-  /\ UNCHANGED <<pid, nfail>>
+  /\ UNCHANGED <<pid, nfail, inj>>
 
 \* the decisions a gate may take: each target (END included), none; for multi-target gates also the full set
 Options(nd) ==
@@ -80,6 +81,7 @@ Exec ==
               a1 == StepFold(pr1, "", snap, acc, <<rs[k]>>, 1, Mode)
           IN /\ acc' = a1
              /\ nfail' = IF failnow THEN nfail + 1 ELSE nfail
+             /\ inj' = IF failnow THEN Append(inj, <<nd.name, idx>>) ELSE inj
              /\ k' = IF Mode = "sync" /\ a1.first = "fail" THEN Len(rs) + 1 ELSE k + 1
   /\ UNCHANGED <<pid, st, phase, rs, snap, outcome>>
 
@@ -92,7 +94,7 @@ Commit ==
         /\ phase' = "done" /\ st' = [snap EXCEPT !.w = acc.st.w]
         /\ outcome' = [outcome EXCEPT !.status = "paused", !.pause = acc.pause]
      ELSE /\ phase' = "plan" /\ st' = [acc.st EXCEPT !.steps = st.steps + 1] /\ UNCHANGED outcome
-  /\ UNCHANGED <<pid, rs, k, snap, acc, nfail>>
+  /\ UNCHANGED <<pid, rs, k, snap, acc, nfail, inj>>
 
 Next == Plan \/ Exec \/ Commit
 Spec == Init /\ [][Next]_vars
@@ -120,6 +122,6 @@ OncePerStep == \A i, j \in TopCalls : (i # j /\ CallsNow[i].node = CallsNow[j].n
 Emit == phase = "done" =>
   PrintT(<<"BEHAV", ToJson([id |-> Job.id, status |-> outcome.status, err |-> outcome.err, pause |-> outcome.pause,
                             values |-> FilterOut(Pr, st.vals, Job.select), steps |-> st.steps,
-                            calls |-> st.w.calls])>>)
+                            calls |-> st.w.calls, inj |-> inj])>>)
 \* bound on exploration: decisions beyond the budget follow the node's own script
 =======================================================================
